@@ -573,7 +573,10 @@ pub fn run_c13(ctx: &Ctx) -> Report {
         let values: &[u8] = if ctx.thorough() { &[0, 1, 127] } else { &[0, 127] };
         subs.push(bfs_polling(ctx, "C13", "bfs_timeout_3ns", 4, 3, if ctx.reduced { &[5] } else { values }));
     }
-    subs.push(bfs_polling(ctx, "C13", "bfs_timeout_0_frozen_clock", 11, 0, if ctx.reduced { &[5] } else { &[0, 1, 127] }));
+    if HAVE_CLOCK {
+        // (with the real clock the scanner's Debug output contains wall-clock instants: no finite keys)
+        subs.push(bfs_polling(ctx, "C13", "bfs_timeout_0_frozen_clock", 11, 0, if ctx.reduced { &[5] } else { &[0, 1, 127] }));
+    }
     // scenario families
     {
         let cases = ctx.pick(2_000u64, 40_000, 800_000);
@@ -630,7 +633,9 @@ pub fn run_c14(ctx: &Ctx) -> Report {
         let values: &[u8] = if ctx.thorough() { &[0, 1, 127] } else { &[0, 127] };
         subs.push(bfs_polling(ctx, "C14", "bfs_timeout_3ns", 6, 3, if ctx.reduced { &[5] } else { values }));
     }
-    subs.push(bfs_polling(ctx, "C14", "bfs_timeout_0_frozen_clock", 15, 0, if ctx.reduced { &[5] } else { &[0, 1, 127] }));
+    if HAVE_CLOCK {
+        subs.push(bfs_polling(ctx, "C14", "bfs_timeout_0_frozen_clock", 15, 0, if ctx.reduced { &[5] } else { &[0, 1, 127] }));
+    }
     Report {
         subs,
         rule: "history-observer invariants after every call: channel, number/kind from the latest number bytes before the call, value from actually received bytes (inc/dec: current message; 7-bit: most recent unreported controller-6 byte; 14-bit: most recent controller-6 and controller-38 bytes incl. the current one), no duplicate 7-bit report, no 7-bit after 14-bit use, no loss (outstanding byte reported by the next contributing message or the first late poll), shape of two-message results".into(),
